@@ -56,6 +56,28 @@ def agree(a, b, tol=1e-6):
 
 
 def one(mod, it):
+    """Replay with the model's inputs; when that does not reproduce / agree and
+    a repaired assignment exists (exp2 arguments recomputed from the model's
+    function values), try that one too."""
+    r = _one(mod, it, it["inputs"])
+    if it.get("inputs_alt"):
+        if it.get("kind") == "cex":
+            good = r["status"] == "ok" and any(f["label"] == it.get("label") for f in r["failed"])
+        else:
+            good = r["status"] == "ok" and not r["failed"] and r.get("obs_agree", True)
+        if not good:
+            r2 = _one(mod, it, it["inputs_alt"])
+            if it.get("kind") == "cex":
+                good2 = r2["status"] == "ok" and any(f["label"] == it.get("label") for f in r2["failed"])
+            else:
+                good2 = r2["status"] == "ok" and not r2["failed"] and r2.get("obs_agree", True)
+            if good2 or r["status"] != "ok":
+                r2["used_alt"] = True
+                return r2
+    return r
+
+
+def _one(mod, it, inputs):
     from . import core
 
     h = None
@@ -63,7 +85,7 @@ def one(mod, it):
         if hh.name == it["harness"]:
             h = hh
     try:
-        ctx, status = core.run_concrete(h.fn, it["config"], it["inputs"])
+        ctx, status = core.run_concrete(h.fn, it["config"], inputs)
     except BaseException:
         return {"status": "exception", "error": traceback.format_exc()[-2500:], "failed": []}
     res = {"status": status, "failed": ctx.failed[:10], "n_claims": ctx.n_claims, "inputs": ctx.inputs}
